@@ -189,6 +189,9 @@ type Replica struct {
 	// Stream client for receiving WAL entries
 	streamClient replication_proto.WALReplicationService_StreamWALClient
 
+	// Result channel of the Recv call that is outstanding on streamClient, if any
+	pendingRecv chan recvResult
+
 	// Statistics for the replica
 	stats *ReplicaStats
 
@@ -387,6 +390,42 @@ func (r *Replica) handleConnectingState() error {
 	return r.stateTracker.SetState(StateStreamingEntries)
 }
 
+// recvResult is the outcome of one Recv call on the WAL stream
+type recvResult struct {
+	response *replication_proto.WALStreamResponse
+	err      error
+}
+
+// receiveNext waits up to timeout for the next message of the current stream.
+// At most one Recv call is outstanding per stream: a call that has not returned when
+// the timeout expires stays pending and its result is picked up by a later
+// receiveNext, so that no message is dropped and Recv is never called concurrently
+// on one stream. The last result is false if nothing arrived in time.
+func (r *Replica) receiveNext(timeout time.Duration) (*replication_proto.WALStreamResponse, error, bool) {
+	if r.pendingRecv == nil {
+		ch := make(chan recvResult, 1)
+		stream := r.streamClient
+		go func() {
+			response, err := stream.Recv()
+			ch <- recvResult{response, err}
+		}()
+		r.pendingRecv = ch
+	}
+
+	timer := time.NewTimer(timeout)
+	defer timer.Stop()
+
+	select {
+	case <-r.ctx.Done():
+		return nil, nil, false
+	case <-timer.C:
+		return nil, nil, false
+	case result := <-r.pendingRecv:
+		r.pendingRecv = nil
+		return result.response, result.err, true
+	}
+}
+
 // handleStreamingState handles the STREAMING_ENTRIES state
 func (r *Replica) handleStreamingState() error {
 	// Check if we already have an active client and stream
@@ -441,11 +480,8 @@ func (r *Replica) handleStreamingState() error {
 		fmt.Printf("Context done, exiting streaming state\n")
 		return nil
 	default:
-		// Receive next batch with a timeout context to make this non-blocking
-		// Increased timeout to 1 second to avoid missing entries due to timing
-		receiveCtx, cancel := context.WithTimeout(r.ctx, 1000*time.Millisecond)
-		defer cancel()
-
+		// Receive the next batch, waiting at most one second so that other state
+		// machine operations can happen
 		fmt.Printf("Waiting to receive next batch...\n")
 
 		// Make sure we have a valid stream client
@@ -453,51 +489,10 @@ func (r *Replica) handleStreamingState() error {
 			return fmt.Errorf("stream client is nil")
 		}
 
-		// Set up a channel to receive the result
-		type receiveResult struct {
-			response *replication_proto.WALStreamResponse
-			err      error
-		}
-		resultCh := make(chan receiveResult, 1)
-
-		go func() {
-			fmt.Printf("Starting Recv() call to wait for entries from primary\n")
-			response, err := r.streamClient.Recv()
-			if err != nil {
-				fmt.Printf("Error in Recv() call: %v\n", err)
-			} else if response != nil {
-				numEntries := len(response.Entries)
-				fmt.Printf("Successfully received a response with %d entries\n", numEntries)
-
-				// IMPORTANT DEBUG: If we received entries but stay in WAITING_FOR_DATA,
-				// this indicates a serious state machine issue
-				if numEntries > 0 {
-					fmt.Printf("CRITICAL: Received %d entries that need processing!\n", numEntries)
-					for i, entry := range response.Entries {
-						if i < 3 { // Only log a few entries
-							fmt.Printf("Entry %d: seq=%d, fragment=%s, payload_size=%d\n",
-								i, entry.SequenceNumber, entry.FragmentType, len(entry.Payload))
-						}
-					}
-				}
-			} else {
-				fmt.Printf("Received nil response without error\n")
-			}
-			resultCh <- receiveResult{response, err}
-		}()
-
-		// Wait for either timeout or result
-		var response *replication_proto.WALStreamResponse
-		var err error
-
-		select {
-		case <-receiveCtx.Done():
+		response, err, ok := r.receiveNext(1000 * time.Millisecond)
+		if !ok {
 			// Timeout occurred - this is normal if no data is available
 			return r.stateTracker.SetState(StateWaitingForData)
-		case result := <-resultCh:
-			// Got a result
-			response = result.response
-			err = result.err
 		}
 
 		if err != nil {
@@ -552,8 +547,8 @@ func (r *Replica) handleStreamingState() error {
 
 		fmt.Printf("Successfully processed entries directly\n")
 
-		// Return to streaming state to continue receiving
-		return r.stateTracker.SetState(StateStreamingEntries)
+		// Stay in the streaming state to continue receiving
+		return nil
 	}
 }
 
@@ -691,6 +686,7 @@ func (r *Replica) handleAcknowledgingState() error {
 	// This is important to fix the issue where the same entries were being fetched repeatedly
 	r.mu.Lock()
 	r.streamClient = nil
+	r.pendingRecv = nil
 	fmt.Printf("Reset stream client after acknowledgment. Next expected sequence will be %d\n",
 		r.batchApplier.GetExpectedNext())
 	r.mu.Unlock()
@@ -703,53 +699,29 @@ func (r *Replica) handleWaitingForDataState() error {
 	// This is a critical transition point - we need to check if we have entries
 	// that need to be processed
 
-	// Check if we have any pending entries from our stream client
+	// Check if the stream has delivered something in the meantime
 	if r.streamClient != nil {
-		// Use a non-blocking check to see if data is available
-		receiveCtx, cancel := context.WithTimeout(r.ctx, 50*time.Millisecond)
-		defer cancel()
-
-		// Use a separate goroutine to receive data to avoid blocking
-		done := make(chan struct{})
-		var response *replication_proto.WALStreamResponse
-		var err error
-
-		go func() {
-			fmt.Printf("Quick check for available entries from primary\n")
-			response, err = r.streamClient.Recv()
-			close(done)
-		}()
-
-		// Wait for either the receive to complete or the timeout
-		select {
-		case <-receiveCtx.Done():
+		response, err, ok := r.receiveNext(50 * time.Millisecond)
+		if !ok {
 			// No data immediately available, continue waiting
 			fmt.Printf("No data immediately available in WAITING_FOR_DATA state\n")
-		case <-done:
-			// We got some data!
-			if err != nil {
-				fmt.Printf("Error checking for entries in WAITING_FOR_DATA: %v\n", err)
-			} else if response != nil && len(response.Entries) > 0 {
-				fmt.Printf("Found %d entries in WAITING_FOR_DATA state - processing immediately\n",
-					len(response.Entries))
+		} else if err != nil {
+			// The stream is broken: report it so that the connection is re-established
+			fmt.Printf("Error checking for entries in WAITING_FOR_DATA: %v\n", err)
+			return fmt.Errorf("stream receive error: %w", err)
+		} else if response != nil && len(response.Entries) > 0 {
+			fmt.Printf("Found %d entries in WAITING_FOR_DATA state - processing immediately\n",
+				len(response.Entries))
 
-				// Process these entries immediately
-				fmt.Printf("Moving to APPLYING_ENTRIES state from WAITING_FOR_DATA\n")
-				if err := r.stateTracker.SetState(StateApplyingEntries); err != nil {
-					return err
-				}
-
-				// Process the entries
-				fmt.Printf("Processing received entries from WAITING_FOR_DATA\n")
-				if err := r.processEntries(response); err != nil {
-					fmt.Printf("Error processing entries: %v\n", err)
-					return err
-				}
-				fmt.Printf("Entries processed successfully from WAITING_FOR_DATA\n")
-
-				// Return to streaming state
-				return r.stateTracker.SetState(StateStreamingEntries)
+			// Process the entries the same way the streaming state does
+			if err := r.processEntriesWithoutStateTransitions(response); err != nil {
+				fmt.Printf("Error processing entries: %v\n", err)
+				return err
 			}
+			fmt.Printf("Entries processed successfully from WAITING_FOR_DATA\n")
+
+			// Return to streaming state
+			return r.stateTracker.SetState(StateStreamingEntries)
 		}
 	}
 
@@ -789,6 +761,7 @@ func (r *Replica) handleErrorState(backoff *time.Timer) error {
 		}
 		r.client = nil
 		r.streamClient = nil // Also reset the stream client
+		r.pendingRecv = nil
 		r.mu.Unlock()
 
 		// Transition back to connecting state
